@@ -24,12 +24,13 @@ class C15(Prop):
                   "system of every allocated node and get_data_locations per node are compared with the model and "
                   "judged by an oracle written from the property text.")
     LEVEL_NOTE = ("Partial: the file system is an abstract set in the model (real mkdir only exercised: local location and "
-                  "shell-backed nodes); symbolic-link work directories, wrapped locations and controlled task "
-                  "interleavings are not covered by the correspondence; uuid4 uniqueness is an assumption. No axioms.")
+                  "shell-backed nodes); symbolic-link work directories and wrapped locations are not covered by the "
+                  "correspondence; task interleavings are sampled by seeded permutations, not enumerated; uuid4 uniqueness is an assumption. No axioms.")
     TECHNIQUE = "Coq proof over a hand-written model (on top of the C21 registry model) + vm_compute correspondence"
     RULE = ("a ScheduleStep receives n in 1..10 (thorough: ..40) tokens with distinct tags, so that n jobs are scheduled "
             "concurrently, alternately on the local deployment and on a shell-backed remote deployment of 2..3 nodes "
-            "with 1 or 2 locations per job; each of input/output/tmp directory is either left to the step or fixed "
+            "with 1 or 2 locations per job, about half of the cases under a seeded permutation of the ready task "
+            "steps of every event-loop turn; each of input/output/tmp directory is either left to the step or fixed "
             "(possibly with a blank in its name, possibly nested, possibly shared between roles). Non-trivial = at "
             "least 2 jobs. Distinct = distinct canonical JSON.")
     TRUSTED = ("model: JobDirs/Model.v and DataReg/Model.v are hand-written; os.path.join, pathlib mkdir/resolve, "
@@ -50,6 +51,9 @@ class C15(Prop):
             if i % 2 == 1:
                 # shell-backed remote deployment with 2..3 nodes; a job takes 1 or 2 of them
                 c.update({"dep": "shell", "nodes": rng.choice([2, 2, 3]), "locations": rng.choice([1, 2, 2])})
+            if i % 4 >= 2 or i == 1:
+                # seeded task interleaving: the ready task steps of every event-loop turn are permuted with this seed
+                c["sched"] = rng.randrange(1, 10**6)
             cases.append(c)
         return cases
 
@@ -115,6 +119,32 @@ class C15(Prop):
                 return res
 
         connector_classes["sfv-shellnodes"] = ShellNodesConnector
+
+        import random
+
+        class PermutingLoop(asyncio.SelectorEventLoop):
+            """Before every turn, the ready callbacks that are steps/wake-ups of asyncio Tasks are permuted among
+            themselves with a seeded generator (a task has at most one of them pending, so every permutation is an
+            interleaving of different tasks); transport and future callbacks keep their places, so that the bytes of
+            a pipe are never reordered."""
+
+            def __init__(self, seed):
+                super().__init__()
+                self._sfv_rng = random.Random(seed)
+                self.permuted = 0
+
+            def _run_once(self):
+                ready = self._ready
+                idx = [i for i, h in enumerate(ready) if type(h._callback).__name__.startswith("Task")]
+                if len(idx) > 1:
+                    hs = [ready[i] for i in idx]
+                    self._sfv_rng.shuffle(hs)
+                    for i, h in zip(idx, hs):
+                        ready[i] = h
+                    self.permuted += 1
+                super()._run_once()
+
+        self.PermutingLoop = PermutingLoop
         self.m = dict(asyncio=asyncio, os=os, shutil=shutil, tempfile=tempfile, BindingConfig=BindingConfig,
                       DeploymentConfig=DeploymentConfig, Target=Target, Token=Token, Workflow=Workflow,
                       build_context=build_context, ConnectorPort=ConnectorPort, DeployStep=DeployStep,
@@ -173,7 +203,17 @@ class C15(Prop):
         m = self.m
         base = m["os"].path.realpath(m["tempfile"].mkdtemp(prefix="sfv-c15-", dir="/var/tmp"))
         try:
-            ob = m["asyncio"].run(self._run(c, base))
+            if c.get("sched") is None:
+                ob = m["asyncio"].run(self._run(c, base))
+            else:
+                loop = self.PermutingLoop(c["sched"])
+                m["asyncio"].set_event_loop(loop)
+                try:
+                    ob = loop.run_until_complete(self._run(c, base))
+                    ob["permuted_turns"] = loop.permuted > 0
+                finally:
+                    m["asyncio"].set_event_loop(None)
+                    loop.close()
         finally:
             m["shutil"].rmtree(base, ignore_errors=True)
         # canonical form: the root becomes /B, drawn names become u0, u1, ... in order of appearance;
@@ -254,6 +294,8 @@ class C15(Prop):
             yield {**c, "n": c["n"] - 1}
         if c.get("nodes", 2) > 2:
             yield {**c, "nodes": 2}
+        if c.get("sched") is not None:
+            yield {k: v for k, v in c.items() if k != "sched"}
         for i in range(3):
             if c["fix"][i]:
                 yield {**c, "fix": c["fix"][:i] + [None] + c["fix"][i + 1:]}
